@@ -5,6 +5,7 @@ from __future__ import annotations
 from mc import dbe
 from props import roundtrip
 
+FULL_PRODUCT_LIMIT = 7000  # thorough tier: formats whose whole case space has at most this many points are enumerated completely
 LEVEL = "model_checking"
 
 
@@ -19,6 +20,21 @@ def jobs(ctx, mode):
             if nat and nat >= 9999 and ndev > (2 if ctx.thorough else 1):
                 continue  # the largest systems only in combination with at most one (thorough: two) other deviation
             out.append((mode, name, case))
+    if ctx.thorough:
+        # formats with a small space: the full product of all axes (systems of >= 9999 atoms stay deviation-bounded)
+        import itertools
+        import math
+
+        for name, spec in specs.items():
+            if math.prod(len(m) for _, m in spec.space) > FULL_PRODUCT_LIMIT:
+                continue
+            seen = {repr(sorted(c.items(), key=str)) for m_, n_, c in out if n_ == name}
+            for values in itertools.product(*[m for _, m in spec.space]):
+                case = dict(zip([n for n, _ in spec.space], values))
+                nat = case.get("natom", 0)
+                if (nat and nat >= 9999) or repr(sorted(case.items(), key=str)) in seen:
+                    continue
+                out.append((mode, name, case))
     out.sort(key=lambda j: -int(j[2].get("natom", 0) or 0))
     return out, k, specs
 
@@ -126,7 +142,7 @@ def run(ctx):
     ctx.cov.update(formats=sorted(specs), dbe_k=k, cases=len(js), axes={n: [a for a, _ in s.space] for n, s in specs.items()})
     ctx.exhaustive = True
     ctx.rule = (
-        f"per format, deviation-bounded enumeration k<={k} over the format's axes (atom counts crossing every field width, element sets, coordinate ranges, titles, bonds, "
+        f"per format, deviation-bounded enumeration k<={k} (thorough: additionally the full product of all axes for every format whose space has <= {FULL_PRODUCT_LIMIT} points) over the format's axes (atom counts crossing every field width, element sets, coordinate ranges, titles, bonds, "
         "optional attributes, grid shapes/values, matrix sizes); each case: build object, dump_one, load_one, compare every attribute the format stores (exact / digits-aware); "
         "violations are minimised to their smallest deviation set. Additionally every corpus file (<= 20 kB quick, all thorough) is converted to every format that accepts it and cycled three times. "
         "Distinct = (format, deviation set) / (corpus file, format)."
